@@ -89,7 +89,7 @@ def body_listing(name, depth1, check=True):
                 pj = deref(hel.text, prefix)
                 if pj is None or _names_of(app, pj) != ("collection", "/user"):
                     return (False, "principal-href")
-    hrefs = [Wd.create_href(s.href).text for s in r.statuses]  # exactly what Status.aselement() emits
+    hrefs = [mweb.emitted_href(s) for s in r.statuses]  # Status.aselement() itself
     want = {("collection", mweb.CAL)}
     if depth1:
         want |= {("member", name), ("member", "z.ics")}
@@ -100,6 +100,12 @@ def body_listing(name, depth1, check=True):
         got.append(res)
         if res is not None and res[0] == "collection" and not urllib.parse.urlsplit(h).path.endswith("/"):
             return (False, "collection-href-without-slash")
+        if res is not None and res[0] == "member":
+            # ... and a request for that URL through the front end (path decoding of WSGI / aiohttp, route prefix)
+            # is answered by that member
+            g = mweb.call(app, "GET", pi, prefix=prefix, wsgi=wsgi)
+            if g.status_class != "2xx" or g.body != (b"xz" if res[1] == "z.ics" else b"xa"):
+                return (False, "member-href-not-served")
     ok = len(got) == len(want) and set(x for x in got if x is not None) == want and None not in got
     return (ok, "depth1" if depth1 else "depth0")
 
@@ -126,7 +132,7 @@ def body_multiget_href(name, check=True):
     ok = True
     n = 0
     for s in r.statuses:
-        el = Wd.create_href(s.href)  # exactly what Status.aselement() emits
+        el = s.aselement().find("{DAV:}href")  # Status.aselement() itself
         back = Wd.read_href_element(el)
         path = Wd.href_to_path({"SCRIPT_NAME": prefix if not wsgi else prefix.rstrip("/")}, back)
         res = _names_of(app, path) if path is not None else None
@@ -154,6 +160,8 @@ def body_collection(cname, check=True):
     mweb.fresh_world({}, {})
     app = mweb.make_app()
     r = mweb.call(app, "MKCOL", "/user/calendars/" + cname, prefix=prefix, wsgi=wsgi)
+    if r.status_class == "5xx":
+        return (False, "mkcol-crashed")
     if r.status_class != "2xx":
         return (True, "mkcol-refused")
     r = mweb.call(app, "PROPFIND", "/user/calendars/", headers=[("Depth", "1")],
@@ -162,10 +170,12 @@ def body_collection(cname, check=True):
         return (False, "no-multistatus")
     got = []
     for s in r.statuses:
-        h = Wd.create_href(s.href).text
+        h = mweb.emitted_href(s)
         pi = deref(h, prefix)
         res = _names_of(app, pi) if pi is not None else None
         got.append(res)
+        if res is not None and res[0] == "collection" and not urllib.parse.urlsplit(h).path.endswith("/"):
+            return (False, "collection-href-without-slash")
         # hrefs inside property VALUES address the resource they were emitted for as well (add-member = ".")
         am = mweb.prop_el(s, "{DAV:}add-member")
         if am is not None:
@@ -184,6 +194,8 @@ def body_collection(cname, check=True):
     for target in ("/user/calendars/" + cname + "/", "/user/calendars/cal/"):
         before = _member_names(app, target)
         r = mweb.call(app, "POST", target, body=b"ok", content_type="text/calendar", prefix=prefix, wsgi=wsgi)
+        if r.status_class == "5xx":
+            return (False, "post-crashed")
         if r.status_class != "2xx":
             return (True, "post-refused")
         created = [n for n in _member_names(app, target) if n not in before]
@@ -205,7 +217,7 @@ def body_collection(cname, check=True):
             return (False, "deep-listing")
         got = []
         for s in r.statuses:
-            pi = deref(Wd.create_href(s.href).text, prefix)
+            pi = deref(mweb.emitted_href(s), prefix)
             if pi is None:
                 return (False, "deep-listing")
             got.append(pi.rstrip("/"))
@@ -225,6 +237,18 @@ def h_collection(cname: str) -> bool:
 def body_menu(i, what):
     """Rare-pattern names (percent + two hex digits, already-encoded look-alikes, reserved characters) chosen by
     the solver from a menu: the same three obligations."""
+    from xv.core import pick
+    i, what = pick(i, len(MENU)), pick(what, 3)
+    try:
+        from crosshair.tracers import NoTracing
+    except ImportError:
+        import contextlib
+        NoTracing = contextlib.nullcontext
+    with NoTracing():
+        return _menu(i, what)
+
+
+def _menu(i, what):
     name = MENU[i]
     if what == 0:
         r = body_listing(name, True, check=False)
@@ -264,7 +288,7 @@ HARNESSES = [
             describe="an emitted href sent back in a REPORT body (read_href_element + href_to_path) resolves to the "
                      "same resource as dereferencing it", encodes=_ENC),
     Harness("menu", h_menu, body_menu, classes=[("listing", ("/", False)), ("collection", ("/dav/", True))],
-            parts={"quick": [("/", False), ("/dav/", True), ("/a/b/", False)], "thorough": _PARTS_T}, bounds=_B,
+            parts={"quick": _PARTS_T, "thorough": _PARTS_T}, bounds=_B,
             budget={"quick": 100, "thorough": 400},
             describe="listing / multiget-href / MKCOL obligations for member names from a menu of rare patterns "
                      "('%' + two hex digits, encoded look-alikes, reserved characters), index chosen by the solver",
